@@ -98,12 +98,33 @@ func (e *SpecEnv) localByName(name string) (Value, bool) {
 		return Value{}, false
 	}
 	var best *ssa.Alloc
+	var same []*ssa.Alloc
 	for a := range e.f.Cells {
 		if a.Comment == name {
-			if best == nil || a.Pos() > best.Pos() {
-				// innermost/latest declaration wins
-				best = a
+			same = append(same, a)
+		}
+	}
+	if len(same) > 1 && len(e.f.Loops) > 0 {
+		// several cells of this name (e.g. the hidden index of two range loops): the one the
+		// innermost active loop advances in its head block
+		head := e.f.Loops[len(e.f.Loops)-1].Head
+		var inHead []*ssa.Alloc
+		for _, a := range same {
+			for _, r := range *a.Referrers() {
+				if st, ok := r.(*ssa.Store); ok && st.Addr == a && st.Block() == head {
+					inHead = append(inHead, a)
+					break
+				}
 			}
+		}
+		if len(inHead) == 1 {
+			same = inHead
+		}
+	}
+	for _, a := range same {
+		// innermost/latest declaration wins; ties (no position) by order of allocation in the function
+		if best == nil || a.Pos() > best.Pos() || (a.Pos() == best.Pos() && allocOrder(a) > allocOrder(best)) {
+			best = a
 		}
 	}
 	if best != nil {
@@ -121,6 +142,20 @@ func (e *SpecEnv) localByName(name string) (Value, bool) {
 		}
 	}
 	return Value{}, false
+}
+
+// allocOrder: a deterministic order of the allocs of one function (block index, instruction index)
+func allocOrder(a *ssa.Alloc) int {
+	b := a.Block()
+	if b == nil {
+		return -1
+	}
+	for i, in := range b.Instrs {
+		if in == a {
+			return b.Index*100000 + i
+		}
+	}
+	return b.Index * 100000
 }
 
 func (u *Unit) evalBool(env *SpecEnv, e Expr) *Term {
@@ -470,6 +505,11 @@ func (u *Unit) evalBinary(env *SpecEnv, x *EBinary) Value {
 			if k, ok := lowMask(bv); ok {
 				return Value{T: EMod(a.T, pow2(k)), Ty: a.Ty}
 			}
+		}
+	}
+	if tok, ok := map[string]token.Token{"&": token.AND, "|": token.OR, "^": token.XOR, "&^": token.AND_NOT}[x.Op]; ok {
+		if bt, ok := a.Ty.Underlying().(*types.Basic); ok && bt.Info()&types.IsInteger != 0 && bt.Info()&types.IsUntyped == 0 {
+			return Value{T: u.bitop(env.s, tok, a.T, b.T, a.Ty), Ty: a.Ty}
 		}
 	}
 	u.specErr("binary %s on %s", x.Op, a.Ty)
